@@ -166,7 +166,16 @@ def impl_expansion_cost(t) -> float:
     """
     from math import comb
 
-    def go(t):  # returns (cardinality bound, cost)
+    BIG = 10**30
+
+    def cap(n, cost):
+        # astronomically large bounds saturate (comb() of two huge bounds does not fit a float any more)
+        return (BIG if n > BIG else n), (1e30 if cost > 1e30 else float(cost))
+
+    def go(t):
+        return cap(*go_(t))
+
+    def go_(t):  # returns (cardinality bound, cost)
         k = t[0]
         if k == "leaf":
             return len(set(t[1])), 1.0
@@ -188,14 +197,18 @@ def impl_expansion_cost(t) -> float:
             cn, cc = go(t[1])
             if t[2] > 64:
                 return 10**30, 1e30
+            if cn >= BIG:
+                return BIG, 1e30
             m = comb(cn + t[2] - 1, t[2])
-            return m, cc + m
+            return m, cc + min(m, BIG)
         if k == "rng":
             cn, cc = go(t[1])
             if t[2] > 64:
                 return 10**30, 1e30
+            if cn >= BIG:
+                return BIG, 1e30
             m = sum(comb(cn + j - 1, j) for j in range(t[2] + 1))
-            return m, cc + m
+            return m, cc + min(m, BIG)
         if k == "pad":
             cn, cc = go(t[1])
             return cn, cc + cn
